@@ -43,6 +43,13 @@ theorem steps_ne_panic (f : List Nat) (bs : Bytes) :
 /-- non-vacuity (F7 witness): an 802.1Q ethertype in a 14-octet sampled header is an error, not a panic -/
 example : dissect [2,0,0,0,0,1, 2,0,0,0,0,2, 0x81,0] 1 = .err .ethShort := by decide
 
+/-- non-vacuity (the slice `p.data[hlen:]` of the F17 repair): an IPv4 header that announces 60 octets
+(IHL 15) in a 24-octet sampled header is an error, not a slice past the end; an IHL below 5 (here 0) is
+read as 20 octets, as before the repair -/
+example : dissect [0x4f,0,0,24, 0,1,0,0, 64,17,0,0, 192,0,2,1, 192,0,2,2, 0,53,0,54] 11 = .err .ip4Short ∧
+    dissect [0x40,0,0,28, 0,1,0,0, 64,17,0,0, 192,0,2,1, 192,0,2,2, 0,53,0,54,0,8,0,0] 11 =
+      .ok ⟨{}, .v4 ⟨4, 0, 28, 1, 0, 0, 64, 17, 0, [192,0,2,1], [192,0,2,2]⟩, .udp 53 54⟩ := by decide
+
 /-- non-vacuity (F5 witness): an extended-router record of declared length 8 is an error, not a panic -/
 example : decodeExtRouter 8 [0,0,0,1, 192,0,2,9, 0,0,0,24, 0,0,0,16] = .err .rtrLen := by decide
 
